@@ -771,6 +771,75 @@ type summary struct {
 	sawCorrupt    bool   // some attempt started from a manifest with content unknown to the schema
 	zeroAttempts  bool   // negative budget read as "no attempt at all" (accepted)
 	errorIdentity string // "" | how the returned error relates to the last fault (informational)
+	probes        int    // read-only look at the destination before the first attempt (not an attempt)
+}
+
+// stripProbe removes a read-only look at the destination that precedes the first attempt: a first
+// workspace that was only read (no fault fired, nothing written, no commit tried), released, and
+// followed by another workspace without the back end having been asked for a verdict in between.
+// That is not an attempt to submit (an implementation may check the destination before it signs);
+// the attempts are what follows. Only the first workspace of a submission can be a probe, so a
+// loop that re-creates workspaces without a verdict is still seen from its second repetition on.
+func stripProbe(log []event) ([]event, int) {
+	first := -1
+	for i, e := range log {
+		if e.Op == "GetChangeOps" {
+			first = i
+			break
+		}
+	}
+	if first < 0 || log[first].WS < 0 || log[first].Fault != nil {
+		return log, 0
+	}
+	ws := log[first].WS
+	released := false
+	for j := first + 1; j < len(log); j++ {
+		e := log[j]
+		if e.Op == "GetChangeOps" {
+			if !released {
+				return log, 0
+			}
+			out := append([]event(nil), log[:first]...)
+			return append(out, log[j:]...), 1
+		}
+		if e.WS != ws || e.Fault != nil {
+			return log, 0
+		}
+		switch e.Op {
+		case "Read":
+		case "Destroy":
+			released = true
+		default:
+			return log, 0
+		}
+	}
+	return log, 0
+}
+
+// onlyLookedAt says whether a back end's whole log is one read-only, fault-free, released workspace.
+// On its own such a log is an attempt that ended in the code's own refusal (or a probe: the two
+// cannot be told apart), so the judge keeps it; the caller that knows ANOTHER back end's failure
+// explains the call's error may treat it as "not submitted to".
+func onlyLookedAt(log []event) bool {
+	seenWS, released := false, false
+	for _, e := range log {
+		switch e.Op {
+		case "GetChangeOps":
+			if seenWS || e.WS < 0 || e.Fault != nil {
+				return false
+			}
+			seenWS = true
+		case "Read":
+			if e.Fault != nil {
+				return false
+			}
+		case "Destroy":
+			released = true
+		default:
+			return false
+		}
+	}
+	return seenWS && released
 }
 
 // judge derives every clause of the property from the call log and the committed head. It returns
@@ -790,7 +859,9 @@ func judge(sc *scenario, d *vcsDouble, err error, pan any) (*verdict, summary) {
 	var okCommits []event
 	verdictSince := false
 	manifestRead := map[int]bool{} // ws -> manifest was read (not faulted) in that workspace
-	for _, e := range d.log {
+	events, probes := stripProbe(d.log)
+	sum.probes = probes
+	for _, e := range events {
 		switch e.Op {
 		case "GetChangeOps":
 			if n := len(atts); n > 0 {
@@ -941,7 +1012,15 @@ func judge(sc *scenario, d *vcsDouble, err error, pan any) (*verdict, summary) {
 		case last != nil && last.fault != nil && last.fault.Retriable && len(atts) == bound(sc.Budget):
 			sum.outcome = "exhausted"
 			if !noRetries {
-				return bad("C14/exhausted-budget-wrong-error", "all %d allowed attempts failed retriably but the returned error is not ErrNoRetries", len(atts))
+				if !verdictSince {
+					// the back end was never asked about the last failure: the run did not end in the
+					// retry loop's budget check (e.g. a look at the destination before the first attempt
+					// failed); which error such a run returns is not the property's business
+					sum.outcome = "other-error"
+					sum.errorIdentity = "failure-outside-the-retry-loop"
+				} else {
+					return bad("C14/exhausted-budget-wrong-error", "all %d allowed attempts failed retriably (and the back end said so) but the returned error is not ErrNoRetries", len(atts))
+				}
 			}
 		case len(atts) == 0 && sc.Budget < 0 && noRetries:
 			// the literal reading of a negative budget: retries+1 <= 0 attempts are allowed
@@ -1017,6 +1096,9 @@ func nontrivial(sc *scenario, s summary) bool {
 
 // tally records, per sub-check, which clauses of the statement the run actually put to the test.
 func tally(name string, sc *scenario, s summary) {
+	if s.probes > 0 {
+		ev.Class(name, "accepted/read-only-probe-before-the-first-attempt")
+	}
 	if s.retried {
 		ev.Class(name, "judged/retry-followed-a-retriable-verdict")
 	}
